@@ -136,6 +136,14 @@ impl<T> VxIter<T> {
             }
     { unimplemented!() }
 
+    /// Iterator::nth
+    #[verifier::external_body]
+    pub fn nth(&mut self, n: usize) -> (r: Option<T>)
+        ensures
+            n < old(self)@.len() ==> r == Some(old(self)@[n as int]) && final(self)@ == old(self)@.skip(n + 1),
+            n >= old(self)@.len() ==> r is None && final(self)@.len() == 0,
+    { unimplemented!() }
+
     /// Iterator::last
     #[verifier::external_body]
     pub fn last(self) -> (r: Option<T>)
